@@ -52,7 +52,9 @@ G0 == [ct |-> "ym3438",      \* static initialiser: ym3438_mode_readmode
        tab |-> {}]           \* table groups already built
 Inst0 == [alive |-> FALSE, emu |-> 0, rate |-> 0, pcm |-> FALSE, lfo |-> FALSE,
           ct |-> "-",        \* per-instance chip type (only used with FixChipType)
-          lfod |-> -2]       \* LFO step latched at the last register-0x22 write: -2 = LFO off
+          lfod |-> -2,       \* LFO step latched at the last register-0x22 write: -2 = LFO off
+          taint |-> {}]      \* cells whose foreign value went into the chips' state (resampler history, phase) by an earlier
+                             \* generate call; stays until the chips are rebuilt
 
 LtKey(I) == IF I.pcm /\ CanPcm(I.emu) THEN I.rate ELSE 0
 
@@ -120,8 +122,12 @@ Step(S, ev) ==
   LET i == ev.i
       w == Local(S.g, S.inst[i], ev)
       s == Local(S.solo[i].g, S.solo[i].inst, ev)
-      diag == (IF w.eff.ct # s.eff.ct THEN {"nuked-chip_type"} ELSE {}) \cup (IF w.eff.lfod # s.eff.lfod THEN {"np2-lfotable"} ELSE {})
-  IN [inst |-> [S.inst EXCEPT ![i] = w.inst], g |-> w.g,
+      now == (IF w.eff.ct # s.eff.ct THEN {"nuked-chip_type"} ELSE {}) \cup (IF w.eff.lfod # s.eff.lfod THEN {"np2-lfotable"} ELSE {})
+      audio == ev.e \in {"Gen", "Play"}
+      diag == IF audio THEN now \cup S.inst[i].taint ELSE {}
+      taint == IF ev.e \in {"Create", "Switch", "Pcm", "Chips", "Reset", "Load", "Close"} THEN {}      \* OPN2::reset builds new chips
+               ELSE IF audio THEN diag ELSE S.inst[i].taint
+  IN [inst |-> [S.inst EXCEPT ![i] = [w.inst EXCEPT !.taint = taint]], g |-> w.g,
       solo |-> [S.solo EXCEPT ![i] = [inst |-> s.inst, g |-> s.g]],
       acc |-> [S.acc EXCEPT ![i] = @ \cup w.acc],
       last |-> [i |-> i, acc |-> w.acc, diag |-> diag]]
